@@ -1375,6 +1375,54 @@ Section C09.
     exists sb', l. repeat split; auto; try apply Hs'. apply filter_meta_nc.
   Qed.
 
+  (* trace form of C09_run *)
+  Section RunTraceForm.
+    Hypothesis Hemit_ok : forall t m x x' e, emit t m x = (x', Some e) -> contract_err e = false.
+
+    Lemma u_run_op o : uM contract_err (run_op o).
+    Proof.
+      destruct o as [e|fuel now]; simpl.
+      - apply uM_bind; [apply u_queue|]. intros _. apply uM_ret.
+      - apply u_execute_once; auto.
+    Qed.
+
+    Lemma run_ops_all_true ops : forall s s' rs, run_ops ops s = (s', rs) ->
+      exists l, m_tr s' = l ++ m_tr s /\ (contracts_all_true l = true -> Forall res_ok rs).
+    Proof.
+      induction ops as [|o rest IH]; intros s s' rs E; simpl in E.
+      - inversion E; subst. exists []. split; [reflexivity|]. intros _. constructor.
+      - destruct (run_op o s) as [s1 r] eqn:E1. destruct (run_ops rest s1) as [s2 rs'] eqn:E2.
+        inversion E; subst. clear E.
+        destruct (u_run_op o s s1 r E1) as (_ & l1 & Etr1 & _ & Hok1).
+        destruct (IH s1 s' rs' E2) as (l2 & Etr2 & Hok2).
+        exists (l2 ++ l1). split; [rewrite Etr2, Etr1, app_assoc; reflexivity|].
+        unfold contracts_all_true in *. rewrite forallb_app. intros H.
+        apply andb_true_iff in H. destruct H as [H2 H1]. constructor; [|apply Hok2, H2].
+        specialize (Hok1 H1). destruct r; exact Hok1.
+    Qed.
+
+    Theorem C09_run_trace ops ia ib x tr_a tr_b sa' rs l :
+      sim ia ib ->
+      run_ops ops (mkM ia x tr_a) = (sa', rs) ->
+      m_tr sa' = l ++ tr_a ->
+      contracts_all_true l = true ->
+      exists sb',
+        run_ops ops (mkM ib x tr_b) = (sb', rs) /\
+        sim (m_i sa') (m_i sb') /\
+        m_x sa' = m_x sb' /\
+        m_tr sb' = filter non_contract l ++ tr_b /\
+        filter is_meta_obs (filter non_contract l) = filter is_meta_obs l.
+    Proof.
+      intros Hs E Etr Hall.
+      destruct (run_ops_all_true ops _ _ _ E) as (l0 & Etr0 & Hok0). simpl in Etr0.
+      rewrite Etr in Etr0. apply app_inv_tail in Etr0. subst l0.
+      destruct (C09_run ops ia ib x tr_a tr_b sa' rs Hs E (Hok0 Hall))
+        as (sb' & l' & Eb & Hs' & Hx & Ea & Etb & _ & Hm).
+      rewrite Etr in Ea. apply app_inv_tail in Ea. subst l'.
+      exists sb'. auto.
+    Qed.
+  End RunTraceForm.
+
   (* ---------------------------------------------------------------- 4.4 __old__ is irrelevant when ignoring *)
   (* two ignoring runs from states that differ only in i_old: same result, same listener state,
      same trace increment, states that still differ only in i_old -- which neither run touches *)
@@ -1422,3 +1470,155 @@ Section C09.
   Qed.
 
 End C09.
+
+(* the main results do not depend on any axiom *)
+Print Assumptions C09_flag_constant.
+Print Assumptions C09_ignore_silent.
+Print Assumptions C09_apply_step_transparent.
+Print Assumptions C09_stabilize_transparent.
+Print Assumptions C09_run_steps_transparent.
+Print Assumptions C09_transparent.
+Print Assumptions C09_execute_transparent.
+Print Assumptions C09_transparent_trace.
+Print Assumptions C09_all_true_iff_res_ok.
+Print Assumptions C09_run.
+Print Assumptions C09_run_trace.
+Print Assumptions C09_old_irrelevant.
+
+(* ================================================================== 5. non-vacuity *)
+Module C09Example.
+  Open Scope string_scope.
+
+  Definition st (n : name) (k : kind) (ini : option name) (pre inv : list code) : name * state :=
+    (n, mkState n k ini None None None pre [] inv).
+
+  (* root (compound, initial a) with a and b; a --go / x+=1--> b
+       a : invariants  x>=0  and  x>=old     (the second one reads __old__)
+       b : precondition x>0, invariant x>=0
+       the transition has the postcondition  x==old+1  (reads __old__) *)
+  Definition ex_chart : chart :=
+    mkChart "ex" None None
+      [st "root" KCompound (Some "a") [] [];
+       st "a" KBasic None [] ["x>=0"; "x>=old"];
+       st "b" KBasic None ["x>0"] ["x>=0"]]
+      [("root", None); ("a", Some "root"); ("b", Some "root")]
+      [(None, ["root"]); (Some "root", ["a"; "b"]); (Some "a", []); (Some "b", [])]
+      [mkTrans "a" (Some "b") (Some "go") None (Some "x+=1") 0 [] ["x==old+1"] []].
+
+  (* the context is the value of x *)
+  Definition ex_exec (c : call Z) (v : Z) : option (Z * list event) :=
+    match cl_code c with
+    | Some cd => if str_eqb cd "x+=1" then Some ((v + 1)%Z, [mkEvent Internal "done" []])
+                 else Some (v, [])
+    | None => Some (v, [])
+    end.
+
+  Definition ex_eval (c : call Z) (v : Z) : option bool :=
+    match cl_code c with
+    | Some cd =>
+        if str_eqb cd "x>=0" then Some (0 <=? v)%Z
+        else if str_eqb cd "x>0" then Some (0 <? v)%Z
+        else if str_eqb cd "x>=old" then
+          match cl_old c with Some o => Some (o <=? v)%Z | None => None end
+        else if str_eqb cd "x==old+1" then
+          match cl_old c with Some o => Some (v =? o + 1)%Z | None => None end
+        else Some true
+    | None => Some true
+    end.
+
+  (* one listener that records every meta-event *)
+  Definition ex_emit (t : Z) (m : meta) (x : list meta) : list meta * option err := (m :: x, None).
+
+  Definition ex_ops : list op :=
+    [OpStep 10 0; OpQueue (mkEvent External "go" []); OpStep 10 1; OpStep 10 2; OpStep 10 3].
+
+  Definition run (ops : list op) (s : mstate Z (list meta)) :=
+    run_ops Z (list meta) ex_exec ex_eval ex_emit ex_chart ops s.
+
+  Definition start (ignore : bool) : mstate Z (list meta) :=
+    mkM (init_istate 0 0 ignore 0%Z) [] [].
+
+  Definition ra := run ex_ops (start false).   (* checking *)
+  Definition rb := run ex_ops (start true).    (* ignoring *)
+
+  Definition is_inl {A B} (r : A + B) : bool := match r with inl _ => true | inr _ => false end.
+
+  (* same macro steps; no error; three macro steps then None *)
+  Example ex_same_results : snd ra = snd rb.
+  Proof. vm_compute. reflexivity. Qed.
+
+  Example ex_no_error : forallb is_inl (snd ra) = true.
+  Proof. vm_compute. reflexivity. Qed.
+
+  Example ex_macro_steps :
+    map (fun r => match r with inl (Some (t, steps)) => Some (t, length steps) | _ => None end) (snd ra)
+    = [Some (0%Z, 2%nat); None; Some (1%Z, 1%nat); Some (2%Z, 1%nat); None].
+  Proof. vm_compute. reflexivity. Qed.
+
+  (* same configuration, context, queues, sent events, listener state *)
+  Example ex_same_state :
+    let a := m_i (fst ra) in let b := m_i (fst rb) in
+    (i_config a, i_ctx a, i_iq a, i_eq a, i_sent a, i_memory a, i_entry a, i_idle a, i_time a)
+    = (i_config b, i_ctx b, i_iq b, i_eq b, i_sent b, i_memory b, i_entry b, i_idle b, i_time b)
+    /\ i_config a = ["root"; "b"] /\ i_ctx a = 1%Z.
+  Proof. vm_compute. repeat split. Qed.
+
+  Example ex_same_meta : m_x (fst ra) = m_x (fst rb) /\ length (m_x (fst ra)) = 16%nat.
+  Proof. vm_compute. split; reflexivity. Qed.
+
+  (* the checking run evaluated contract conditions (7 of them, all True), the ignoring run none;
+     apart from that the traces are the same *)
+  Example ex_traces :
+    filter non_contract (m_tr (fst ra)) = m_tr (fst rb) /\
+    contracts_all_true (m_tr (fst ra)) = true /\
+    length (filter (fun o => negb (non_contract o)) (m_tr (fst ra))) = 7%nat /\
+    length (filter (fun o => negb (non_contract o)) (m_tr (fst rb))) = 0%nat.
+  Proof. vm_compute. repeat split. Qed.
+
+  (* __old__ : the checking run stored frozen contexts, the ignoring run did not *)
+  Example ex_old : i_old (m_i (fst ra)) <> [] /\ i_old (m_i (fst rb)) = [].
+  Proof. vm_compute. split; [discriminate|reflexivity]. Qed.
+
+  (* the hypotheses of C09_run are satisfied by the example: the theorem applies *)
+  Example ex_C09_run_applies :
+    exists sb' l,
+      run ex_ops (start true) = (sb', snd ra) /\
+      sim Z (m_i (fst ra)) (m_i sb') /\ m_x (fst ra) = m_x sb' /\
+      m_tr (fst ra) = (l ++ [])%list /\ m_tr sb' = (filter non_contract l ++ [])%list /\
+      contracts_all_true l = true /\
+      filter is_meta_obs (filter non_contract l) = filter is_meta_obs l.
+  Proof.
+    apply (C09_run Z (list meta) ex_exec ex_eval ex_emit ex_chart ex_ops
+             (init_istate 0 0 false 0%Z) (init_istate 0 0 true 0%Z) [] [] [] (fst ra) (snd ra)).
+    - split; [constructor; reflexivity|]. split; reflexivity.
+    - exact (surjective_pairing ra).
+    - apply Forall_forall. intros r Hin.
+      assert (H := ex_no_error). rewrite forallb_forall in H. specialize (H r Hin).
+      destruct r; [exact I|discriminate].
+  Qed.
+
+  (* a failing contract IS observable: with x starting at -1 the invariant x>=0 of a fails in the
+     checking run and the two runs differ -- the hypothesis of the theorem is needed *)
+  Example ex_failing_contract_differs :
+    snd (run [OpStep 10 0] (mkM (init_istate 0 0 false (-1)%Z) [] []))
+      = [inr (EContract CInv (OState "a") 0)] /\
+    is_inl (hd (inr EFuel) (snd (run [OpStep 10 0] (mkM (init_istate 0 0 true (-1)%Z) [] [])))) = true.
+  Proof. vm_compute. split; reflexivity. Qed.
+
+  (* two CHECKING runs from states that differ only in __old__ may differ (the invariant x>=old of
+     a reads it), two IGNORING runs do not (C09_old_irrelevant) *)
+  Definition with_old (ignore : bool) (o : list (owner * Z)) : mstate Z (list meta) :=
+    mkM (mkIState 0 true 0 [] ["root"; "a"] [("root", 0%Z); ("a", 0%Z)] [("root", 0%Z); ("a", 0%Z)]
+           [] [] [] ignore 0%Z o) [] [].
+
+  Example ex_old_relevant_when_checking :
+    snd (run [OpStep 10 1] (with_old false [(OState "a", 0%Z)])) = [inl None] /\
+    snd (run [OpStep 10 1] (with_old false [(OState "a", 5%Z)])) = [inr (EContract CInv (OState "a") 1)].
+  Proof. vm_compute. split; reflexivity. Qed.
+
+  Example ex_old_irrelevant_when_ignoring :
+    snd (run [OpStep 10 1] (with_old true [(OState "a", 0%Z)])) =
+    snd (run [OpStep 10 1] (with_old true [(OState "a", 5%Z)])).
+  Proof. vm_compute. reflexivity. Qed.
+
+End C09Example.
